@@ -576,7 +576,11 @@ class NodeDefDestructuring:
                 if (
                     isinstance(values[i], ckl.functions.FuncLambda)
                     and values[i].name == "lambda"
+                    and isinstance(self.expression, NodeList)
+                    and i < len(self.expression.items)
+                    and isinstance(self.expression.items[i], NodeLambda)
                 ):
+                    # as in a plain def: only a function written here
                     values[i].name = self.identifiers[i]
                 result = values[i]
             else:
